@@ -1,6 +1,8 @@
 package streamwriter
 
 import (
+	"time"
+
 	"github.com/bluenviron/gomavlib/v3/pkg/frame"
 	"github.com/bluenviron/gomavlib/v3/pkg/message"
 )
@@ -147,10 +149,56 @@ func verifHarness_C09_v1_big_id(raw int) {
 		verifAssume(other > 255)
 		msg = &message.MessageRaw{ID: other, Payload: verifNondetBytes(2)}
 	}
+	s := verifNondetU8()
+	w.nextSeqNumber = s
 	err := w.Write(msg)
 	verifAssert(err != nil, "C09/V/refused")
 	verifAssert(rec.Calls() == 0, "C09/V/nothing-emitted")
+	verifAssert(w.nextSeqNumber == s, "C09/V/refused-write-consumes-no-sequence-number")
 	verifReach("C09/V")
+}
+
+// G: gapless over accepted writes. From an arbitrary counter state: a refused write (kind 0: nil message, 1: a message
+// outside the dialect, 2: the transport fails) and then an accepted one; the
+// accepted frame carries the number the counter had before the refused write (kind 2: the failed frame may have
+// reached the wire in part, nothing is claimed about the counter).
+func verifHarness_C09_gapless(version int, kind int) {
+	rec := &frame.VerifRecWriter{}
+	fw := &frame.Writer{ByteWriter: rec, DialectRW: frame.VerifDialectRW()}
+	verifAssert(fw.Initialize() == nil, "C09/G/frame-writer-init")
+	sys, s := verifNondetU8(), verifNondetU8()
+	verifAssume(sys >= 1)
+	w := &Writer{FrameWriter: fw, Version: Version(version), SystemID: sys}
+	verifAssert(w.Initialize() == nil, "C09/G/init")
+	w.nextSeqNumber = s
+	var bad message.Message
+	switch kind {
+	case 1:
+		id := verifNondetU32()
+		verifAssume(id >= 210 && id <= 255)
+		bad = &message.MessageRaw{ID: id, Payload: verifNondetBytes(1)}
+	case 2:
+		rec.SetFailAt(1)
+		bad = &message.MessageRaw{ID: 200, Payload: verifNondetBytes(3)}
+	}
+	err := w.Write(bad)
+	verifAssert(err != nil, "C09/G/refused")
+	if kind != 2 {
+		verifAssert(rec.Calls() == 0, "C09/G/nothing-emitted")
+		verifAssert(w.nextSeqNumber == s, "C09/G/refused-write-consumes-no-sequence-number")
+	}
+	before := len(rec.Buf())
+	pre := w.nextSeqNumber
+	err = w.Write(&message.MessageRaw{ID: 200, Payload: verifNondetBytes(3)})
+	verifAssert(err == nil, "C09/G/next-write-accepted")
+	out := rec.Buf()[before:]
+	if version == 1 {
+		verifAssert(len(out) == 8+3 && out[2] == pre, "C09/G/accepted-frame-carries-the-next-number")
+	} else {
+		verifAssert(len(out) == 12+3 && out[4] == pre, "C09/G/accepted-frame-carries-the-next-number")
+	}
+	verifAssert(w.nextSeqNumber == pre+1, "C09/G/sequence-advances-by-one-mod-256")
+	verifReach("C09/G")
 }
 
 // C07/T: two consecutive writes on a keyed link: each timestamp is the clock reading in 10 us units since
@@ -211,4 +259,12 @@ func verifHarness_C09_wide_id(raw int) {
 	verifObserveBytes("C09/W/wire", rec.Buf())
 	verifAssert(verifEqBytes(rec.Buf(), exp), "C09/W/wire-is-spec-frame-for-a-24-bit-id")
 	verifReach("C09/W")
+}
+
+// R: the instant signature timestamps are counted from is 2015-01-01T00:00:00 UTC (not a local-time midnight)
+func verifHarness_C07_reference() {
+	want := time.Date(2015, time.January, 1, 0, 0, 0, 0, time.UTC)
+	verifAssert(signatureReferenceDate == want, "C07/R/reference-date-is-2015-utc")
+	verifAssert(frame.VerifSignatureReferenceDate() == want, "C07/R/frame-writer-reference-date-is-2015-utc")
+	verifReach("C07/R")
 }
